@@ -40,7 +40,7 @@ def shape_values(shape):
     return out
 
 
-def clone_module(idx, shape, entry, named_mask, generic=False, extra=(), bounds=None, disc=False):
+def clone_module(idx, shape, entry, named_mask, generic=False, extra=(), bounds=None, disc=False, repr_=None):
     """module with one type of the given shape (number of fields per variant) deriving Clone and a driver that
     executes every transition of MC_Clone from every state"""
     is_struct = len(shape) == 1
@@ -66,7 +66,7 @@ def clone_module(idx, shape, entry, named_mask, generic=False, extra=(), bounds=
     lines = ["pub mod m%d {" % idx, "    use ::dx_support::%s as CF;" % cf_name]
     if is_struct:
         body, kind = decl(0, shape[0])
-        lines.append("    %s pub struct T%s %s%s" % (derive_head(traits, entry), g, body, "" if kind == "named" else ";"))
+        lines.append("    %s %spub struct T%s %s%s" % (derive_head(traits, entry), ("#[repr(%s)] " % repr_) if repr_ else "", g, body, "" if kind == "named" else ";"))
     else:
         # explicit discriminants (out of declaration order) need a primitive representation
         vs = ", ".join("A%d %s%s" % (vi, decl(vi, n)[0], (" = %d" % ((7 * (vi + 3)) % 11)) if disc else "") for vi, n in enumerate(shape))
@@ -131,7 +131,7 @@ FIELD_FORMS = [("(CF, CF)", "(CF(%d, 1), CF(%d, 2))"), ("[CF; 2]", "[CF(%d, 1), 
                ("((CF,), CF)", "((CF(%d, 1),), CF(%d, 2))"), ("CF", "CF(%d, %d)")]
 
 
-def clone_fieldwise_module(idx, kind, forms, entry):
+def clone_fieldwise_module(idx, kind, forms, entry, fnames=None):
     """fields whose TYPES are tuples / arrays / Option / Vec / Box of the recording type: clone / clone_from of the derived impl
     must be exactly one call of the field type's own clone / clone_from per field, in order (whatever that type then does)"""
     tys = [FIELD_FORMS[k][0] for k in forms]
@@ -144,8 +144,9 @@ def clone_fieldwise_module(idx, kind, forms, entry):
         flds = lambda x: ["%s.%d" % (x, j) for j in range(n)]
         bind = ""
     else:
-        decl = "pub enum T { U, V { %s } }" % ", ".join("f%d: %s" % (j, t) for j, t in enumerate(tys))
-        mk = lambda tag: "T::V { %s }" % ", ".join("f%d: %s" % (j, val(k, tag + j)) for j, k in enumerate(forms))
+        N = list(fnames) if fnames else ["f%d" % j for j in range(n)]
+        decl = "pub enum T { U, V { %s } }" % ", ".join("%s: %s" % (N[j], t) for j, t in enumerate(tys))
+        mk = lambda tag: "T::V { %s }" % ", ".join("%s: %s" % (N[j], val(k, tag + j)) for j, k in enumerate(forms))
         flds = None
     lines = ["pub mod m%d {" % idx, "    use ::dx_support::CF;", "    %s %s" % (derive_head(["Clone"], entry), decl),
              "    pub fn run() -> String {"]
@@ -157,8 +158,8 @@ def clone_fieldwise_module(idx, kind, forms, entry):
         for j, t in enumerate(tys):
             lines.append("        <%s as ::core::clone::Clone>::clone_from(&mut a2.%d, &b.%d);" % (t, j, j))
     else:
-        pat = ", ".join("f%d" % j for j in range(n))
-        lines.append("        if let (T::V { %s }, T::V { %s }) = (&mut a2, &b) {" % (pat, ", ".join("f%d: g%d" % (j, j) for j in range(n))))
+        pat = ", ".join("%s: f%d" % (N[j], j) for j in range(n))
+        lines.append("        if let (T::V { %s }, T::V { %s }) = (&mut a2, &b) {" % (pat, ", ".join("%s: g%d" % (N[j], j) for j in range(n))))
         for j, t in enumerate(tys):
             lines.append("            <%s as ::core::clone::Clone>::clone_from(f%d, g%d);" % (t, j, j))
         lines.append("        }")
@@ -169,7 +170,7 @@ def clone_fieldwise_module(idx, kind, forms, entry):
     if kind == "struct":
         lines.append("        let c2 = T(%s);" % ", ".join("<%s as ::core::clone::Clone>::clone(&b.%d)" % (t, j) for j, t in enumerate(tys)))
     else:
-        lines.append("        let c2 = if let T::V { %s } = &b { T::V { %s } } else { T::U };" % (pat, ", ".join("f%d: <%s as ::core::clone::Clone>::clone(f%d)" % (j, t, j) for j, t in enumerate(tys))))
+        lines.append("        let c2 = if let T::V { %s } = &b { T::V { %s } } else { T::U };" % (pat, ", ".join("%s: <%s as ::core::clone::Clone>::clone(f%d)" % (N[j], t, j) for j, t in enumerate(tys))))
     lines.append("        let want = ::dx_support::take_log();")
     lines.append("        let clone_log_equal = got == want; let clone_state_equal = format!(\"{:?}\", dbg(&c1)) == format!(\"{:?}\", dbg(&c2));")
     lines.append("        format!(\"{{\\\"id\\\":%d,\\\"ev\\\":\\\"clone_fieldwise\\\",\\\"from_log_equal\\\":{},\\\"from_state_equal\\\":{},\\\"clone_log_equal\\\":{},\\\"clone_state_equal\\\":{}}}\\n\", from_log_equal, from_state_equal, clone_log_equal, clone_state_equal)" % idx)
@@ -177,7 +178,7 @@ def clone_fieldwise_module(idx, kind, forms, entry):
     if kind == "struct":
         lines.append("    fn dbg(t: &T) -> String { format!(\"%s\", %s) }" % (" ".join("{:?}" for _ in tys), ", ".join("t.%d" % j for j in range(n))))
     else:
-        lines.append("    fn dbg(t: &T) -> String { match t { T::U => String::new(), T::V { %s } => format!(\"%s\", %s) } }" % (pat, " ".join("{:?}" for _ in tys), pat))
+        lines.append("    fn dbg(t: &T) -> String { match t { T::U => String::new(), T::V { %s } => format!(\"%s\", %s) } }" % (pat, " ".join("{:?}" for _ in tys), ", ".join("f%d" % j for j in range(n))))
     lines.append("}")
     return "\n".join(lines)
 
@@ -206,7 +207,7 @@ def clone_history_module(idx, shape, entry, named_mask, script):
 # ------------------------------------------------------------------------------------------------
 # C08
 # ------------------------------------------------------------------------------------------------
-def ops_module(idx, n, kind, entry, ops=None, generic=False, bounds=None, selfbound=None, leaf="Tm", repr_=None, names=None, with_default=False):
+def ops_module(idx, n, kind, entry, ops=None, generic=False, bounds=None, selfbound=None, leaf="Tm", repr_=None, names=None, with_default=False, shadow_core=False):
     """struct with n Tm fields deriving all 22 operator traits; driver exercises every form.
     leaf "Tc": the Copy, alignment-1 guise of the term algebra (needed for #[repr(packed)])"""
     ops = ops or BINOPS
@@ -255,7 +256,9 @@ def ops_module(idx, n, kind, entry, ops=None, generic=False, bounds=None, selfbo
             decl = "pub struct T%s(%s);" % (g, ", ".join(((fa if j == n - 1 else "") + ty) for j in range(n)))
     if repr_:
         decl = "#[repr(%s)] %s" % (repr_, decl)
-    lines = ["pub mod m%d {" % idx, "    #[allow(unused_imports)] use ::dx_support::{tm, Tm};", only, "    %s %s" % (derive_head(dtraits, entry), decl)]
+    lines = ["pub mod m%d {" % idx, "    #[allow(unused_imports)] use ::dx_support::{tm, Tm};", only,
+             "    #[allow(dead_code)] pub mod core { pub mod ops {} pub mod clone {} } #[allow(dead_code)] pub mod std {}" if shadow_core else "",
+             "    %s %s" % (derive_head(dtraits, entry), decl)]
 
     def ctor(c):
         args = ["%s(\"%s%d\")" % (mkleaf, c, j) for j in range(n)]
@@ -317,6 +320,12 @@ LOCAL_OPERANDS = """    pub struct LT(pub String);
     #[allow(dead_code)] impl RT { pub fn clone(&self) -> Self { ::dx_support::log("decoy:clone".to_string()); RT("decoy".to_string()) } }"""
 
 
+NOCLONE_RHS_OPERANDS = """    pub struct LT(pub String);
+    impl ::core::clone::Clone for LT { fn clone(&self) -> Self { ::dx_support::log(format!("cloneL:{}", self.0)); LT(self.0.clone()) } }
+    pub struct RT(pub String);
+    #[allow(dead_code)] impl LT { pub fn clone(&self) -> Self { ::dx_support::log("decoy:clone".to_string()); LT("decoy".to_string()) } }"""
+
+
 def refty(t, isref):
     return ("&" + t) if isref else t
 
@@ -329,7 +338,7 @@ GENERIC_OPERANDS = """    pub struct LT<G>(pub String, pub ::core::marker::Phant
     #[allow(dead_code)] impl<G> RT<G> { pub fn clone(&self) -> Self { ::dx_support::log("decoy:clone".to_string()); RT("decoy".to_string(), ::core::marker::PhantomData) } }"""
 
 
-def implop_module(idx, op, base, rhs_self, want_bin, want_assign, base_is_assign=False, generic=None, spell_self=False, assign_first=False, proj=False):
+def implop_module(idx, op, base, rhs_self, want_bin, want_assign, base_is_assign=False, generic=None, spell_self=False, assign_first=False, proj=False, stacked=False, rhs_noclone=False):
     """user impl of `op` in base form (bl, br) carrying #[derive_ex(..)]; returns (source, request-for-inproc, descriptor)"""
     bl, br = base
     L, R = ty_of("l", rhs_self), ty_of("r", rhs_self)
@@ -371,7 +380,16 @@ def implop_module(idx, op, base, rhs_self, want_bin, want_assign, base_is_assign
                 "%s(format!(\"base({},{})\", self.0, rhs.0)%s) } }" % (ig, op, rhs_txt, refty(L, bl == "r"), iw2, out_txt, fn, rhs_txt, L, ctor, mk2))
     only = ("    pub trait Only<U: ?::core::marker::Sized> {}\n    impl<%sG> Only<%sLT<G>> for G {}" % (("'x, ", "&'x ") if (bl == "r" and not base_is_assign) else ("", ""))) if generic else ""
     pj = ("    pub trait Pj { type O; }\n    impl%s Pj for %sLT { type O = LT; }" % (("<'x>", "&'x ") if bl == "r" else ("", ""))) if proj else ""
-    lines = ["pub mod m%d {" % idx, GENERIC_OPERANDS if generic else LOCAL_OPERANDS, only, pj, "    #[::derive_ex::derive_ex(%s)] %s" % (attr, impl)]
+    operands = GENERIC_OPERANDS if generic else LOCAL_OPERANDS
+    if rhs_noclone:
+        # a right operand that is never needed by value need not be Clone at all
+        assert not generic and not rhs_self and br == "r"
+        operands = NOCLONE_RHS_OPERANDS
+    head = "#[::derive_ex::derive_ex(%s)]" % attr
+    if stacked and len(req) == 2:
+        # one list per trait, stacked on the impl; the later one written the usual way (macro imported by name)
+        head = "#[allow(unused_imports)] use ::derive_ex::derive_ex;\n    #[::derive_ex::derive_ex(%s)] #[derive_ex(%s)]" % (req[0], req[1])
+    lines = ["pub mod m%d {" % idx, operands, only, pj, "    %s %s" % (head, impl)]
     lines.append("    fn counts(lg: &[String]) -> (usize, usize, usize) { (lg.iter().filter(|s| *s == \"call\").count(), "
                  "lg.iter().filter(|s| s.starts_with(\"clone\") && s.ends_with(\":L\")).count(), lg.iter().filter(|s| s.starts_with(\"clone\") && s.ends_with(\":R\")).count()) }")
     lines.append("    pub fn run() -> String {\n        let mut out = String::new();")
@@ -400,7 +418,8 @@ def implop_module(idx, op, base, rhs_self, want_bin, want_assign, base_is_assign
                     emit("implbin", (fl, fr), "o.0", unch, "result")
                     lines.append("        }")
         if want_assign:
-            forms = ("v", "r") if want_bin else (br,)
+            # (stacked lists are separate requests: `op=` then exists for the user's own Rhs form only)
+            forms = ("v", "r") if (want_bin and not stacked) else (br,)
             for fr in forms:
                 lines.append("        { let mut l = %s; let r = %s; ::dx_support::take_log(); l %s= %sr; let lg = ::dx_support::take_log();"
                              % (mkl, mkr, s, "&" if fr == "r" else ""))
@@ -419,7 +438,8 @@ def implop_module(idx, op, base, rhs_self, want_bin, want_assign, base_is_assign
 FLAGS = ["{:?}", "{:#?}", "{:5?}", "{:<8?}", "{:>8?}", "{:^8?}", "{:*^10?}", "{:+?}", "{:.1?}", "{:x?}", "{:X?}", "{:#x?}", "{:08.2?}",
          "{:#10?}", "{:+.3?}", "{:#<6?}", "{:02?}"]
 LEAF_TYPES = [("i32", ["7i32", "-3i32"]), ("f64", ["1.5f64", "-0.25f64"]), ("&'static str", ["\"hi\"", "\"a b\""]), ("::core::option::Option<i32>", ["::core::option::Option::Some(4i32)", "::core::option::Option::<i32>::None"]),
-              ("Inner", ["Inner { p: 1, q: -2 }"]), ("(u8, bool)", ["(3u8, true)"]), ("::std::vec::Vec<u8>", ["::std::vec![1u8, 2u8]", "::std::vec::Vec::<u8>::new()"])]
+              ("Inner", ["Inner { p: 1, q: -2 }"]), ("(u8, bool)", ["(3u8, true)"]), ("::std::vec::Vec<u8>", ["::std::vec![1u8, 2u8]", "::std::vec::Vec::<u8>::new()"]),
+              ("::dx_support::DF", ["::dx_support::DF(7)", "::dx_support::DF(250)"])]
 INNER = "#[derive(Debug, Clone)] pub struct Inner { pub p: i32, pub q: i32 }"
 
 
@@ -518,7 +538,7 @@ def debug_module(idx, desc, entry, rnd, bounds=None):
 # ------------------------------------------------------------------------------------------------
 # C11 Default
 # ------------------------------------------------------------------------------------------------
-DV_SRC = {"none": None, "str": "\"abc\"", "path": "::dx_support::SRC7", "assoc_path": "::dx_support::Holder::SRC3", "into_path": "::dx_support::SRCI8",
+DV_SRC = {"none": None, "str": "\"abc\"", "empty_str": "\"\"", "path": "::dx_support::SRC7", "assoc_path": "::dx_support::Holder::SRC3", "into_path": "::dx_support::SRCI8",
           "call": "::dx_support::mk(5)", "block": "{ ::dx_support::mk(6) }", "method": "::dx_support::mk(4).same()", "int": "5", "neg": "-3",
           "bytes": "b\"ab\""}
 DV_TY = {"int": "u8", "neg": "i8", "bytes": "&'static [u8]"}
@@ -621,6 +641,50 @@ DEREF_SELF = """pub mod m%d {
                 same_address, target_is_field_type, mut_same_address, write_lands)
     }
 }"""
+
+
+def debug_macro_module(idx, frag, entry):
+    """an enum and a struct written by a macro_rules! macro: names from one side, field types (as `ty` / `tt` fragments) from the other"""
+    head = derive_head(["Debug"], entry)
+    tf = "$t:ty" if frag == "ty" else "$t:tt"
+    return """pub mod m%d {
+    macro_rules! shapes { ($( $v:ident { $( $f:ident : %s ),* } ),*) => {
+        %s pub enum E { $( $v { $( $f : $t ),* } ),* }
+        %s pub struct S { $( $( pub $f : $t ),* ),* }
+        pub mod twin { #[derive(Debug)] pub enum E { $( $v { $( $f : $t ),* } ),* } #[derive(Debug)] pub struct S { $( $( pub $f : $t ),* ),* } }
+    } }
+    shapes!(Circle { radius: i32, label: u8 }, Sq { side: f64 });
+    pub fn run() -> String {
+        let xs = (E::Circle { radius: 3, label: 7 }, E::Sq { side: 1.5 }, S { radius: 3, label: 7, side: 1.5 });
+        let ts = (twin::E::Circle { radius: 3, label: 7 }, twin::E::Sq { side: 1.5 }, twin::S { radius: 3, label: 7, side: 1.5 });
+        let mut eq = true;
+        eq &= format!("{:?}", xs.0) == format!("{:?}", ts.0) && format!("{:#?}", xs.0) == format!("{:#?}", ts.0) && format!("{:+08.2?}", xs.1) == format!("{:+08.2?}", ts.1);
+        eq &= format!("{:?}", xs.1) == format!("{:?}", ts.1) && format!("{:#?}", xs.2) == format!("{:#?}", ts.2) && format!("{:x?}", xs.2) == format!("{:x?}", ts.2);
+        format!("{{\\"id\\":%d,\\"ev\\":\\"same_as_twin\\",\\"equal\\":{}}}\\n", eq)
+    }
+}""" % (idx, tf, head, head, idx)
+
+
+def ops_macro_module(idx, frag, entry):
+    """a struct of term-algebra fields written by a macro_rules! macro, the field type handed in as an `ident` / `tt` fragment"""
+    head = derive_head(["Add", "Sub", "Neg", "AddAssign", "ShlAssign", "Not"], entry)
+    pat = "$t:ident" if frag == "ident" else "$($t:tt)+"
+    use = "$t" if frag == "ident" else "$($t)+"
+    return """pub mod m%d {
+    use ::dx_support::{tm, Tm};
+    macro_rules! pair { ($n:ident, %s) => { %s pub struct $n(pub %s, pub %s); } }
+    pair!(T, Tm);
+    pub fn run() -> String {
+        let mk = |c: &str| T(tm(&format!("{}0", c)), tm(&format!("{}1", c)));
+        let mut eq = true;
+        { let (a, b) = (mk("a"), mk("b")); let r = &a + &b; eq &= r.0 == &a.0 + &b.0 && r.1 == &a.1 + &b.1; }
+        { let (a, b) = (mk("a"), mk("b")); let r = a - &b; eq &= r.0 == mk("a").0 - &mk("b").0 && r.1 == mk("a").1 - &mk("b").1; }
+        { let r = -mk("a"); eq &= r.0 == -mk("a").0 && r.1 == -mk("a").1; let a2 = mk("a"); let r2 = !&a2; eq &= r2.0 == !&mk("a").0 && r2.1 == !&mk("a").1; }
+        { let (mut a, b) = (mk("a"), mk("b")); let (mut a2, b2) = (mk("a"), mk("b")); a += &b; a2.0 += &b2.0; a2.1 += &b2.1; eq &= a.0 == a2.0 && a.1 == a2.1; }
+        { let (mut a, b) = (mk("a"), mk("b")); let (mut a2, b2) = (mk("a"), mk("b")); a <<= b; a2.0 <<= b2.0; a2.1 <<= b2.1; eq &= a.0 == a2.0 && a.1 == a2.1; }
+        format!("{{\\"id\\":%d,\\"ev\\":\\"same_as_twin\\",\\"equal\\":{}}}\\n", eq)
+    }
+}""" % (idx, pat, head, use, use, idx)
 
 
 def deref_macro_module(idx, frag, entry):
@@ -897,6 +961,19 @@ C12_SPECIAL = [
         let cmp_equal = ::dx_support::table_cmp(&a) == ::dx_support::table_cmp(&b);
         let pcmp_equal = ::dx_support::table_pcmp(&a) == ::dx_support::table_pcmp(&b) && ::dx_support::table_ops(&a) == ::dx_support::table_ops(&b);
         format!("{{\\"id\\":IDX,\\"nvals\\":5,\\"debug_equal\\":{},\\"eq_equal\\":{},\\"cmp_equal\\":{},\\"pcmp_equal\\":{},\\"diff\\":\\"\\"}}\\n", debug_equal, eq_equal, cmp_equal, pcmp_equal)"""),
+    ("many_variants", ["Clone", "Debug", "PartialEq", "Eq", "PartialOrd", "Ord", "Hash"], "BIG_ENUM",
+     """let ks = [0usize, 1, 2, 254, 255, 256, 257, 258, 299, 128, 129, 0];
+        let a: ::std::vec::Vec<dx::T> = ks.iter().map(|k| dx::pick(*k)).collect();
+        let b: ::std::vec::Vec<sd::T> = ks.iter().map(|k| sd::pick(*k)).collect();
+        let debug_equal = a.iter().zip(b.iter()).all(|(x, y)| format!("{:?}", x) == format!("{:?}", y));
+        let eq_equal = ::dx_support::table_eq(&a) == ::dx_support::table_eq(&b);
+        let cmp_equal = ::dx_support::table_cmp(&a) == ::dx_support::table_cmp(&b);
+        let pcmp_equal = ::dx_support::table_pcmp(&a) == ::dx_support::table_pcmp(&b) && ::dx_support::table_ops(&a) == ::dx_support::table_ops(&b);
+        let hash_consistent = ::dx_support::law_eq_hash(&a) == -1;
+        format!("{{\\"id\\":IDX,\\"nvals\\":12,\\"debug_equal\\":{},\\"eq_equal\\":{},\\"cmp_equal\\":{},\\"pcmp_equal\\":{},\\"hash_consistent\\":{},\\"diff\\":\\"\\"}}\\n", debug_equal, eq_equal, cmp_equal, pcmp_equal, hash_consistent)"""),
+    ("unsized_where_inline", ["Debug", "PartialEq", "PartialOrd"], "pub struct T<G: ::core::cmp::PartialOrd> where G: ?Sized { pub len: u8, pub tail: G }", "COMPILE_ONLY"),
+    ("unsized_where_second", ["Debug", "PartialEq", "Eq", "Hash"], "pub struct T<'a, G: ::core::cmp::PartialEq + 'a>(pub &'a u8, pub G) where G: ::core::fmt::Debug, G: ?Sized;", "COMPILE_ONLY"),
+    ("unsized_wrapper_last_arg", ["Debug", "PartialEq"], "pub struct T<K, V: ?Sized> { pub a: u8, pub inner: ::dx_support::Tagged<K, V> }", "COMPILE_ONLY"),
     ("where_self", ["Clone", "Debug", "PartialEq", "Eq", "Hash"], "pub struct T<G> where Self: ::core::marker::Sized, G: ::core::marker::Copy { pub a: G }",
      """let a = vec![dx::T { a: 1u8 }, dx::T { a: 2u8 }]; let b = vec![sd::T { a: 1u8 }, sd::T { a: 2u8 }];
         let debug_equal = a.iter().zip(b.iter()).all(|(x, y)| format!("{:?}", x) == format!("{:?}", y));
@@ -908,6 +985,10 @@ C12_SPECIAL = [
 
 def c12_special_module(idx, spec, entry):
     name, traits, item, body = spec
+    if item == "BIG_ENUM":
+        # 300 unit variants (positions beyond one byte) and a constructor by position
+        vs = ["V%03d" % k for k in range(300)]
+        item = "pub enum T { %s }\n        pub fn pick(k: usize) -> T { const ALL: [T; 300] = [%s]; ALL[k].clone() }" % (", ".join(vs), ", ".join("T::" + v for v in vs))
     lines = ["pub mod m%d {" % idx,
              "    pub mod dx { %s %s }" % (derive_head(traits, entry), item),
              "    pub mod sd { #[derive(%s)] %s }" % (", ".join(traits), item)]
